@@ -160,4 +160,49 @@ class OptionsLeftOut(object):
         return H.observation_key(obs), vs, len(obs['log'])
 
 
-FAMILIES = [Failures(), SeveralPerFile(), _one_file_two_names(), _option_histories(), OptionsLeftOut()]
+class BorrowedAndRebuild(object):
+    case_timeout = 10
+    name = 'borrowable-failures-under-rebuild'
+    describe = ('A imports B, B (or A, or both) absent or unparsable and held by a borrower; one or two searchers that call the copy in the '
+                'destination fresh / answer normally / know nothing, honouring rebuild or not, in either order; rebuild x ignoreErrors x '
+                'noDeps x requests: a module that is borrowed is handed over and reported borrowed, and nothing is written while a '
+                'failure remains')
+
+    def blocks(self, tier):
+        return [{'fail': f, 'who': w} for f in ('notfound', 'synerr') for w in ('B', 'A', 'AB')]
+
+    def cases(self, block, tier):
+        answers = ('fresh', 'normal', None)
+        for a1 in answers:
+            for h1 in (True, False):
+                for a2 in answers:
+                    for rb in (False, True):
+                        for ie in (False, True):
+                            for req in (['A'], ['A', 'B']):
+                                w = {'n': 2, 'edges': [['A', 'B']], 'used': 0, 'req': req}
+                                for m in block['who']:
+                                    if block['fail'] == 'notfound':
+                                        w.setdefault('src', {})[m + '0'] = 'notfound'
+                                    else:
+                                        w.setdefault('text', {})[m] = 'synerr'
+                                w['borrowers'] = [{'texts': False, 'ans': dict((m, 'has') for m in block['who'])}]
+                                ss = []
+                                for ans, hon in ((a1, h1), (a2, True)):
+                                    ss.append({'honours_rebuild': hon, 'ans': dict((m, ans) for m in block['who']) if ans else {}})
+                                w['searchers'] = ss
+                                o = {}
+                                if rb:
+                                    o['rebuild'] = True
+                                if ie:
+                                    o['ignoreErrors'] = True
+                                if o:
+                                    w['opts'] = o
+                                yield w
+
+    def run_case(self, case):
+        obs = H.run_world(case)
+        vs = H.judge(case, obs, 'C09|borrowed-and-rebuild')
+        return H.observation_key(obs), vs, len(obs['log'])
+
+
+FAMILIES = [Failures(), SeveralPerFile(), _one_file_two_names(), _option_histories(), OptionsLeftOut(), BorrowedAndRebuild()]
